@@ -84,6 +84,7 @@ type c15Beh struct {
 	Kcap   int       `json:"kcap"`
 	Exp    bool      `json:"exp"`
 	Steps  []c15Step `json:"steps"`
+	Term   bool      `json:"term"` // the behaviour ends in a terminal state of the specification
 	Final  []string  `json:"final"`
 	Leaked []int     `json:"leaked"`
 }
@@ -603,7 +604,7 @@ finish:
 		if len(leaked) > 0 {
 			viol("connection neither handed out nor closed"+suffix(), -1, strings.Join(leaked, ","))
 		}
-		if !diverged && (len(leaked) > 0) != (len(b.Leaked) > 0) {
+		if !diverged && b.Term && (len(leaked) > 0) != (len(b.Leaked) > 0) {
 			diverge(last, fmt.Sprintf("leaked %v, specification %v", leaked, b.Leaked))
 		}
 	}
